@@ -120,6 +120,18 @@ func (w *World) doSetKeys(in Intent) {
 		if in.Op == "rotate_orch_badsig" {
 			signKey = ext.DetEthKey(label + "-other")
 		}
+	case "back_to_first": // the validator's FIRST external key again (after it rotated away from it), with a new orchestrator
+		if in.V >= 100 {
+			return
+		}
+		v := w.val(in.V)
+		k0, ok := v.ExtKey[chain]
+		if !ok {
+			return
+		}
+		key, signKey = k0, k0
+		extAddr = eip55(ext.KeyAddr(k0))
+		orch = hub.NewAccount(fmt.Sprintf("orch-%s-b%d", label, in.Pick))
 	case "share_orch", "self_orch": // fresh key; the orchestrator is the one this validator uses on ANOTHER chain / its own operator account
 		if in.V >= 100 {
 			return
@@ -138,13 +150,14 @@ func (w *World) doSetKeys(in Intent) {
 			}
 			orch = cur
 		}
-	case "steal_orch":
+	case "steal_orch", "steal_first_orch":
 		o := w.val(in.Pick)
 		if oo, ok := o.Orch[chain]; ok {
 			orch = oo
 		}
-		// the victim's CURRENT orchestrator on this chain, whatever it registered last
-		if cur, ok := w.currentOrchOf(chain, o.Oper.ValAddr()); ok {
+		// the victim's CURRENT orchestrator on this chain, whatever it registered last - or (odd picks) the one it
+		// started with, which a rotation may have released in the meantime
+		if cur, ok := w.currentOrchOf(chain, o.Oper.ValAddr()); ok && in.Pick%2 == 0 && in.Op != "steal_first_orch" {
 			orch = cur
 		}
 		l2 := fmt.Sprintf("%s-so%d", label, in.Pick)
